@@ -233,6 +233,35 @@ func init() {
 	E["strings.Index"] = func(fr *frame, args []value) value {
 		return indexStr(fr, strElems(args[0]), strElems(args[1]))
 	}
+	E["strings.Count"] = func(fr *frame, args []value) value {
+		a, aok := args[0].(string)
+		b, bok := args[1].(string)
+		if aok && bok {
+			return strings.Count(a, b)
+		}
+		s, sub := strElems(args[0]), strElems(args[1])
+		if len(sub) == 0 {
+			fr.requireASCII(s, "strings.Count")
+			return len(s) + 1
+		}
+		n := 0
+		for i := 0; i+len(sub) <= len(s); {
+			hit := false
+			switch q := elemsEq(s[i:i+len(sub)], sub).(type) {
+			case bool:
+				hit = q
+			case symv:
+				hit = fr.px().branch(q.t)
+			}
+			if hit {
+				n++
+				i += len(sub)
+			} else {
+				i++
+			}
+		}
+		return n
+	}
 	E["internal/bytealg.IndexString"] = E["strings.Index"]
 	E["internal/bytealg.Index"] = func(fr *frame, args []value) value {
 		return indexStr(fr, args[0].([]value), args[1].([]value))
